@@ -1624,8 +1624,10 @@ func (ex *Exec) next(fr *Frame, st *State, i *ssa.Next, fname string) {
 		// (still) in the map has been produced (entries added during the iteration may be skipped: then nothing is assumed)
 		vk, vsrt := visitedKey(rng)
 		vis := st.heap.Get(vk, vsrt)
-		ex.assume(And(st.pc, ok), Not(Select(vis, kv.one())))
 		if mode := fr.mapLoopMode[rng]; mode != 0 {
+			// (an entry that is deleted and created again during the iteration may be produced twice: with both kinds of
+			// update in the body nothing is assumed)
+			ex.assume(And(st.pc, ok), Not(Select(vis, kv.one())))
 			q := BoundVar("vk", mapKeySort(mt))
 			pq, _ := ex.mapRead(st, mt, m, q)
 			dk, _, _ := mapKeys(mt)
